@@ -16,3 +16,12 @@ Definition model_agrees_from (k k2 : kind) (v : pyv) (observed : res val) : bool
   | Ok x => res_same (store_from_col k k2 x) observed
   | Raise _ => true
   end.
+
+(* scalar / cell write paths through the regenerated dispatch kernels *)
+From DM Require Export Model.C05Paths.
+Definition model_agrees_k (p : path) (k : kind) (v : pyv) (observed : res val) : bool :=
+  res_same (store_k p k v) observed.
+
+(* a column object as value; tc = the _typechecking flag of the target column observed before the write *)
+Definition model_agrees_colval (tc : bool) (f : colform) (k k2 : kind) (raw : pyv) (observed : res val) : bool :=
+  res_same (store_colval tc f k k2 raw) observed.
